@@ -105,7 +105,7 @@ def main():
     ap.add_argument("--props", default="")
     ap.add_argument("--seeds", default="1,2,3")
     ap.add_argument("-j", type=int, default=1)
-    a = ap.parse_args()
+    a = ap.parse_intermixed_args()
 
     if a.cmd == "quiet":
         from vf.props import ALL_PROPS
